@@ -50,4 +50,8 @@ MUTANTS = [
                 right_filler_len = filler_len - left_filer_len""", """                right_filler_len = filler_len // 2
                 left_filer_len = filler_len - right_filler_len""")]},
     {"id": "c12-n-dots-2", "expect": "silent", "edits": [(P, "        dots_len = min(3, width)", "        dots_len = min(2, width)")], "note": "still exact width"},
+    {"id": "c12-resize-cut-plus-one", "expect": "fire", "edits": [(C, "                result.append(item.clone(item.text[:remaining_len]))", "                result.append(item.clone(item.text[:remaining_len + 1]))")]},
+    {"id": "c12-resize-tail-of-item", "expect": "fire", "edits": [(C, "                result.append(item.clone(item.text[:remaining_len]))", "                result.append(item.clone(item.text[-remaining_len:]))")]},
+    {"id": "c12-resize-remaining-not-reduced", "expect": "fire", "edits": [(C, "                result.append(item)\n                remaining_len -= cur_item_len", "                result.append(item)")]},
+    {"id": "c12-n-resize-strict-compare", "expect": "silent", "edits": [(C, "            if cur_item_len <= remaining_len:", "            if cur_item_len < remaining_len:")]},
 ]
